@@ -734,3 +734,125 @@ class MainMaps(Contract):
 
 def real_or_int(v):
     return v.t
+
+
+class MainFields(Contract):
+    """main(): the two impedances, the radiation field, the wake field and the wake map (from the declaration of `wake_impedance` up to
+    the tracking file).  The factory and the field / map constructors are called within their contracts' preconditions; in particular
+    the impedance handed to the radiation field exists for every gap (the CSR contribution is always selected for it), and the wake
+    field is built exactly when the factory returned an impedance."""
+    name = 'main'
+    tu = 'src/main.cpp'
+    tu_filter = 'main'
+    aux_tus = [('src/main.cpp', 'vfps::')]
+    params = ['argc', 'argv']
+    tags = {'C06', 'C16', 'C17', 'C05'}
+    ghosts = {'k': 'int', 'n': 'int', 'x': 'int', 'y': 'int', 'e': 'int', 'g': 'int', 'b': 'int', 'i': 'int'}
+    slice_from = 'wake_impedance'
+    slice_until = 'trackme'
+    slice_externals = {'opts': 'vfps::ProgramOptions'}
+    canary = True
+    no_bounded_fallback = True
+    loops = {}
+
+    def slice_setup(self, ex, st):
+        from .common import declare_ps, ps_globals
+        from .sm import Ruler_valid
+        a = ex.args0
+        cx = Ctx(ex, st, st, a)
+        nx, ny, nb = ps_globals(cx)
+        for g_ in ('grid_t1', 'grid_t2'):
+            if g_ not in a or not isinstance(a[g_], ObjRef):
+                raise ExtractionError(f'main: {g_} not found before the fields are built')
+            st.assume(And(declare_ps(cx, a[g_].name), Ruler_valid(cx, a[g_].name + '._axis[0]', nx), Ruler_valid(cx, a[g_].name + '._axis[1]', ny)))
+        # established by the configuration slice (MainConfig): sizes of the padded buffers, bucket numbers; documented domain of the rest
+        need = ('padded_bins', 'spaced_bins', 'fmax', 'f_rev', 'R_bend', 'revolutionpart', 'E0', 'sE', 'interpolationtype')
+        for v_ in need:
+            if v_ not in a:
+                raise ExtractionError(f'main: variable {v_} is not an input of the field construction block any more')
+        st.assume(And(PS_static(cx), a['padded_bins'].t >= nx, a['padded_bins'].t >= 2, a['padded_bins'].t < 2 ** 32,
+                      a['spaced_bins'].t >= nx, a['spaced_bins'].t >= 2, a['spaced_bins'].t < 2 ** 32,
+                      a['fmax'].t > 0, a['f_rev'].t > 0, a['R_bend'].t > 0, a['revolutionpart'].t != 0, models.uf_const('PI') > 3,
+                      a['E0'].t != 0, a['sE'].t != 0, nx * nb * 4 < 2 ** 32))
+        it = a['interpolationtype']
+        st.assume(And(it.t >= 1, it.t <= 4))
+        st.scal['ghost.built.wake_field'] = IntV(I(0), parse_type_str('int'))
+        # the defaults this slice uses for the short call of the factory are the declared ones
+        from vf.unit import _walk
+        decls = []
+        for t_ in [ex.tu] + [t__ for t__ in (getattr(ex, 'aux_tus', None) or [])]:
+            for d_ in getattr(t_, 'docs', []):
+                for f_ in _walk(d_):
+                    if f_.get('kind') == 'FunctionDecl' and f_.get('name') == 'makeImpedance':
+                        decls.append(f_)
+        want = {'use_csr': ('CXXBoolLiteralExpr', True), 's': ('IntegerLiteral', '0'), 'xi': ('IntegerLiteral', '0'), 'inner_coll_radius': ('IntegerLiteral', '0'), 'impedance_file': ('StringLiteral', '""')}
+        ok_decl = False
+        for f_ in decls:
+            ps_ = [p_ for p_ in f_.get('inner', []) if p_.get('kind') == 'ParmVarDecl']
+            got = {}
+            for p_ in ps_:
+                lits = [(x.get('kind'), x.get('value')) for x in _walk(p_) if x.get('kind') in ('CXXBoolLiteralExpr', 'IntegerLiteral', 'FloatingLiteral', 'StringLiteral')]
+                if lits:
+                    got[p_.get('name')] = lits[0]
+            if got and all(got.get(k_) == v_ for k_, v_ in want.items()):
+                ok_decl = True
+        if not ok_decl:
+            raise ExtractionError('main: the declared default arguments of makeImpedance are not (true, 0, 0, 0, "") any more — the call-site contract has to be updated')
+
+    def assigns(self, cx):
+        return [('s', 'ghost.*'), ('s', 'arg:*'), ('r', 'heap:*'), ('len', 'heap:*'), ('s', 'heap:*'), ('r', 'local:*'), ('len', 'local:*'), ('s', 'local:*'), ('r', 'ret:*'), ('len', 'ret:*'), ('s', 'ret:*')]
+
+    @property
+    def calls(self):
+        from .z import MakeImpedance
+        from .ef import ElectricFieldCtorUse, ElectricFieldCtor11
+        noop = lambda ex, n, st, objn, argn, this_override=None: VoidV()
+        strv = lambda ex, n, st, objn, argn, this_override=None: Opaque('string')
+        K = lambda cx: [{'k': cx.ghost_of('k')}]
+        mk = [0]
+
+        class MakeImpedanceUse(MakeImpedance):
+            """call-site view: the factory returns either nothing or a fresh impedance object"""
+            # defaults of the trailing parameters as declared in inc/Z/ImpedanceFactory.hpp (checked against the declaration in slice_setup)
+            param_defaults = {'use_csr': lambda: IntV(I(1), parse_type_str('int')), 's': lambda: RealV(z3.RealVal(0), parse_type_str('double')),
+                              'xi': lambda: RealV(z3.RealVal(0), parse_type_str('double')), 'inner_coll_radius': lambda: RealV(z3.RealVal(0), parse_type_str('double')),
+                              'impedance_file': lambda: Opaque('string:')}
+
+            def result(self, cx):
+                mk[0] += 1
+                return ObjRef(f'heap:impedance{mk[0]}', 'std::shared_ptr<vfps::Impedance>', null=z3.Bool(f'heap:impedance{mk[0]}==null'))
+
+        class Factory(Use):
+            def __init__(self):
+                Use.__init__(self, MakeImpedanceUse(), inst=K)
+
+        class RadiationFieldCtor(ElectricFieldCtorUse):
+            # ElectricField(ps, impedance, buckets, spacing, oclh, f_rev, revolutionpart = 1, wakescalining = 0.0): declared defaults
+            param_defaults = {'revolutionpart': lambda: RealV(z3.RealVal(1), parse_type_str('float')), 'wakescalining': lambda: RealV(z3.RealVal(0), parse_type_str('float'))}
+
+        class NewField(Use):
+            def __call__(self, ex, n, st, objn, argn, this_override=None):
+                Use.__call__(self, ex, n, st, None, argn, this_override='heap:wake_field')
+                st.scal['ghost.built.wake_field'] = IntV(st.scal['ghost.built.wake_field'].t + 1, parse_type_str('int'))
+                ex.logw(('s', 'ghost.built.wake_field'))
+                return ObjRef('heap:wake_field', 'vfps::ElectricField', null=z3.BoolVal(False))
+
+        def new_map(ex, n, st, objn, argn, this_override=None):
+            for a_ in argn:
+                try:
+                    ex.ev(a_, st) if parse_type(a_['type']).kind != 'class' else ex.ev_obj(a_, st)
+                except ExtractionError:
+                    pass
+            return ObjRef('heap:wakemap', 'vfps::SourceMap', null=z3.BoolVal(False))
+        return {'makeImpedance': Factory(),
+                'ctor:vfps::ElectricField/7': Use(RadiationFieldCtor(), inst=K), 'ctor:vfps::ElectricField/8': Use(RadiationFieldCtor(), inst=K),
+                'ctor:vfps::ElectricField/11': NewField(ElectricFieldCtor11(), inst=K),
+                'ctor:vfps::WakePotentialMap': new_map, 'ctor:vfps::Identity': new_map,
+                'printText': noop, 'operator+': strv, 'operator<<': strv, 'str': strv}
+
+    def ensures(self, cx):
+        built = cx.st.scal['ghost.built.wake_field'].t
+        wi = cx.st.env.get(next((k for k, nm in cx.st.names.items() if nm == 'wake_impedance'), None))
+        if not isinstance(wi, ObjRef) or wi.null is None:
+            raise ExtractionError('main: wake_impedance is not the factory result any more')
+        return [('wake_field_iff_wake_impedance', {'C05', 'C06', 'C16'}, And(Implies(Not(wi.null), built == 1), Implies(wi.null, built == 0)))]
